@@ -65,7 +65,18 @@ impl FileSystem {
     pub(crate) fn get_object_path(&self, bucket: &str, key: &str) -> Result<PathBuf> {
         let dir = Path::new(&bucket);
         let file_path = Path::new(&key);
-        self.resolve_abs_path(dir.join(file_path))
+
+        // an object lives strictly below its bucket directory: keys that climb out of it are refused
+        if file_path.has_root() || file_path.components().any(|c| matches!(c, std::path::Component::ParentDir)) {
+            return Err(Error::from_string("invalid object key: absolute path or parent directory component"));
+        }
+
+        let bucket_path = self.resolve_abs_path(dir)?;
+        let path = self.resolve_abs_path(dir.join(file_path))?;
+        if path == bucket_path || !path.starts_with(&bucket_path) {
+            return Err(Error::from_string("invalid object key: resolves outside of its bucket"));
+        }
+        Ok(path)
     }
 
     /// resolve bucket path under the virtual root
